@@ -2,7 +2,7 @@ use crate::{device::Device, expr::Expr, instruction::register::Reg8, parser::Seg
 
 use std::{
     cell::{Cell, RefCell},
-    collections::HashMap,
+    collections::{HashMap, HashSet},
     rc::Rc,
 };
 
@@ -89,6 +89,8 @@ pub struct CommonContext {
     pub sets: Rc<RefCell<HashMap<String, Expr>>>,
     // special
     pub special: Rc<RefCell<HashMap<String, Expr>>>,
+    // names of the defines in lower case (symbols must not share them in any letter case)
+    pub define_names: Rc<RefCell<HashSet<String>>>,
     // evaluation steps spent by the expressions of this build
     pub evaluation_steps: Rc<Cell<usize>>,
     // device
@@ -104,6 +106,7 @@ impl CommonContext {
             defs: Rc::new(RefCell::new(hashmap! {})),
             sets: Rc::new(RefCell::new(hashmap! {})),
             special: Rc::new(RefCell::new(hashmap! {})),
+            define_names: Rc::new(RefCell::new(HashSet::new())),
             evaluation_steps: Rc::new(Cell::new(0)),
             device: Rc::new(RefCell::new(Some(Device::new(0)))),
         }
@@ -175,10 +178,7 @@ impl Context for CommonContext {
     fn exist(&self, name: &String) -> bool {
         // a #define is looked up as it is written and comes first: a symbol whose name differs
         // from it in letter case only would be read as the #define (value 0) in that spelling
-        self.defines
-            .borrow()
-            .keys()
-            .any(|define| define.eq_ignore_ascii_case(name))
+        self.define_names.borrow().contains(&name.to_lowercase())
             // the location counter exists in pass 2 only, its name is taken from the start
             || name.eq_ignore_ascii_case("pc")
             || self.get_expr(name).is_some()
@@ -186,6 +186,7 @@ impl Context for CommonContext {
     }
 
     fn set_define(&self, name: String, expr: Expr) -> Option<Expr> {
+        self.define_names.borrow_mut().insert(name.to_lowercase());
         self.defines.borrow_mut().insert(name, expr)
     }
 
